@@ -421,6 +421,27 @@ func TestC09Pinned(t *testing.T) {
 		o := wopts{BS: 4, BlockSum: true, ContentSum: true, Conc: 1, Level: a.level}
 		pinned(t, "C09", "C09/conformance", mk(o, []gen.Seg{{K: "text", N: 48 * 65536, S: uint64(a.alpha), P: a.alpha}}, "write", ""), runC09)
 	}
+	// full blocks whose compressed form is a few bytes smaller than the block (a random block ending in a repeat of 255..290 bytes:
+	// the repeat just about pays for the length bytes of the literal run), with block checksums, followed by a second block
+	found := map[int]bool{}
+	for m := 200; m < 600 && len(found) < 5; m++ {
+		segs := []gen.Seg{{K: "rand", N: 40000, S: 9}, {K: "copy", N: m, P: 39900, S: 1}, {K: "rand", N: 65536 - 40000 - m, S: 10}}
+		blk := gen.Data{Segs: segs}.Build()
+		dst := make([]byte, lz4.CompressBlockBound(len(blk)))
+		n, err := lz4.CompressBlock(blk, dst, nil)
+		if err != nil || n < 65536-5 || n >= 65536 || found[65536-n] {
+			continue
+		}
+		found[65536-n] = true
+		stat.For("C09").Class(fmt.Sprintf("frame/full-block-compressed-to-blocksize-%d", 65536-n))
+		for _, o := range []wopts{{BS: 4, BlockSum: true, ContentSum: true, Conc: 1}, {BS: 4, BlockSum: true, Conc: 2}} {
+			pinned(t, "C09", "C09/conformance", mk(o, append(segs, gen.Seg{K: "text", N: 500, S: 2, P: 4}), "write", ""), runC09)
+			pinned(t, "C09", "C09/conformance", mk(o, append(segs, gen.Seg{K: "text", N: 500, S: 2, P: 4}), "creader", ""), runC09)
+		}
+	}
+	if !found[1] || !found[2] || !found[3] {
+		t.Fatalf("HARNESS PROBLEM: no full block compressing to 1, 2 and 3 bytes less than the block size was found (%v)", found)
+	}
 	// legacy: empty, small, incompressible exactly 8 MiB, incompressible > 8.36 MB (two blocks), compressible multi-block
 	leg := wopts{BS: 7, Conc: 1, Legacy: true}
 	for _, segs := range [][]gen.Seg{{}, {{K: "text", N: 100, S: 1, P: 4}}, {{K: "rand", N: 8 << 20, S: 9}}, {{K: "rand", N: 8<<20 + 70000, S: 10}}, {{K: "text", N: 8<<20 + 1, S: 2, P: 4}},
@@ -432,6 +453,11 @@ func TestC09Pinned(t *testing.T) {
 		{{K: "rand", N: 8<<20 - 4096, S: 18}, {K: "text", N: 4096, S: 4, P: 2}}, {{K: "rand", N: 8370000, S: 19}, {K: "run", N: 8<<20 - 8370000, P: 'a'}, {K: "rand", N: 8370000, S: 20}, {K: "run", N: 10000, P: 0}}} {
 		pinned(t, "C09", "C09/conformance", mk(leg, segs, "write", ""), runC09)
 		pinned(t, "C09", "C09/conformance", mk(leg, segs, "readfrom", ""), runC09)
+	}
+	// ... every length around the point where the compression bound of an incompressible last block crosses 8 MiB
+	// (n + n/255 + 16 > 2^23 from n = 8355826 on)
+	for n := 8355818; n <= 8355846; n++ {
+		pinned(t, "C09", "C09/conformance", mk(leg, []gen.Seg{{K: "rand", N: n, S: uint64(n)}}, "write", ""), runC09)
 	}
 }
 
